@@ -28,6 +28,9 @@ def cases(tier, seed):
             if tier == 'quick' and sum(1 for b in case[2][:-1] if b) not in (0, 1, 8):
                 continue
             yield ('C04', case[1], case[2])
+    for fmt in ('FIDE', 'GLEN', 'JSON'):
+        for op in ('AND', 'OR'):
+            yield ('HUGE', fmt, op, 1200)
     for case in c09.cases(tier, seed):
         if case[0] in ('FIDE', 'FAMA', 'AFM', 'GLEN', 'CORPUS'):
             yield ('C09',) + tuple(case)
@@ -50,6 +53,8 @@ def plan(tier):
 
 
 def describe(case):
+    if case[0] == 'HUGE':
+        return 'HUGE:%s %s x %d' % tuple(case[1:])
     if case[0] == 'RT':
         return 'RT:%s | %s' % (case[1], sh.model_str(case[2]))
     if case[0] == 'C04':
@@ -58,6 +63,10 @@ def describe(case):
 
 
 def reduce(case):
+    if case[0] == 'HUGE':
+        if case[3] > 40:
+            yield ('HUGE', case[1], case[2], case[3] // 2)
+        return
     if case[0] == 'RT':
         mod = RT[case[1]]
         for c in mod.reduce(('S', case[2])):
@@ -170,8 +179,64 @@ def _has_one_arg_aggregate(t):
     return False
 
 
+def _huge_document(fmt, op, n):
+    import json
+    names = ['P%d' % i for i in range(1, 8)]
+    ops = [names[i % 7] for i in range(n)]
+    if fmt == 'FIDE':
+        tag = 'conj' if op == 'AND' else 'disj'
+        feats = ''.join('<feature name="%s"/>' % x for x in names)
+        return ('<?xml version="1.0" encoding="UTF-8"?><featureModel><struct><and name="Fa" mandatory="true">%s</and></struct>'
+                '<constraints><rule><%s>%s</%s></rule></constraints></featureModel>'
+                % (feats, tag, ''.join('<var>%s</var>' % x for x in ops), tag)), 'xml'
+    term = {'type': 'AndTerm' if op == 'AND' else 'OrTerm', 'operands': [{'type': 'FeatureTerm', 'operands': [x]} for x in ops]}
+    if fmt == 'GLEN':
+        table = {'Fa': {'name': 'Fa', 'optional': False, 'type': 'FEATURE', 'note': ''}}
+        for x in names:
+            table[x] = {'name': x, 'optional': True, 'type': 'FEATURE', 'note': ''}
+        return json.dumps({'id': 'FM', 'name': 'FM', 'features': table, 'tree': {'id': 'Fa', 'children': [{'id': x} for x in names]},
+                           'constraints': {'c1': term}}), 'gfm.json'
+    jterm = {'type': op, 'operands': [{'type': 'FEATURE', 'operands': [x]} for x in ops]}
+    root = {'name': 'Fa', 'abstract': False, 'relations': [{'type': 'OPTIONAL', 'card_min': 0, 'card_max': 1,
+                                                            'children': [{'name': x, 'abstract': False, 'relations': []}]} for x in names]}
+    return json.dumps({'features': root, 'constraints': [{'name': 'c1', 'expr': '', 'ast': jterm}]}), 'json'
+
+
+def _check_huge(case):
+    """A flat n-ary rule with more operands than the interpreter's recursion limit: the readers fold
+    it iteratively; the features of the constraint and its operators must still be obtainable."""
+    from flamapy.metamodels.fm_metamodel.transformations import FeatureIDEReader, GlencoeReader, JSONReader
+    _k, fmt, op, n = case
+    doc, ext = _huge_document(fmt, op, n)
+    path = engine.tmppath('c02huge.' + ext)
+    with open(path, 'w', encoding='utf8') as fh:
+        fh.write(doc)
+    try:
+        fm = {'FIDE': FeatureIDEReader, 'GLEN': GlencoeReader, 'JSON': JSONReader}[fmt](path).transform()
+        engine.tick()
+    except Exception:  # noqa: BLE001
+        return []
+    out = []
+    try:
+        ctc = fm.get_constraints()[0]
+        got = sorted(ctc.get_features())
+        opsfound = set(o.value for o in ctc.ast.get_operators())
+        engine.tick(2)
+        if got != ['P%d' % i for i in range(1, 8)]:
+            out.append(Fail('get_features', {'got': got[:10]}))
+        if opsfound != {op}:
+            out.append(Fail('ast-illformed', sorted(opsfound)))
+    except Exception as exc:  # noqa: BLE001
+        out.append(Fail('constraint-not-traversable:%s' % type(exc).__name__, 'n-ary %s rule with %d operands' % (op, n)))
+    if not out:
+        engine.validated()
+    return out
+
+
 def check(case):
     kind = case[0]
+    if kind == 'HUGE':
+        return _check_huge(case)
     if kind == 'RT':
         fmt = RT[case[1]].FMT
         model = case[2]
@@ -237,4 +302,6 @@ def check(case):
 
 
 def outcome(case):
+    if case[0] == 'HUGE':
+        return 'HUGE'
     return case[0] + ':' + str(case[1] if case[0] != 'C04' else 'uvl')
